@@ -1,10 +1,88 @@
-import NetaddrVerif.Model.Glob
-import NetaddrVerif.Model.Nmap
+/-
+Props/C17.lean — property C17: glob and nmap range notations denote exactly their address sets.
+
+  "valid_glob accepts exactly the strings of four dot-separated octets written as plain decimal
+   values 0-255, with at most one hyphenated x-y octet (x<y) and only asterisks after a hyphen or
+   asterisk, and every string it accepts converts (glob_to_iprange / glob_to_iptuple / IPGlob /
+   glob_to_cidrs) to exactly the addresses whose octets match it; iprange_to_globs(start, end)
+   returns valid globs that tile [start, end] exactly (a single glob when the range is
+   glob-shaped) and cidr_to_glob is the exact one-glob form of any IPv4 CIDR.
+   valid_nmap_range(spec) is True exactly when iter_nmap_range(spec) succeeds, and iteration
+   yields, ascending and without duplicates, exactly the addresses whose every octet belongs to
+   that octet's comma/hyphen list (or the addresses of the IPv4 CIDR / the single IPv6 address
+   given)."
+
+Spec vocabulary (Lemmas/C17LGlob.lean): `Oct` (lit n | hyp a b | star), `parseOct` (the octet
+grammar: `*`, plain decimal 0..255 without leading zero, `x-y` with plain decimal x < y ≤ 255),
+`shapeOk` (literals, then at most one hyphenated octet, then only asterisks), `globParse`,
+`GlobGrammar`.  Model: Model/Glob.lean, Model/Nmap.lean.
+-/
+import NetaddrVerif.Lemmas.C17LConv
 namespace NV.C17
 open NV NV.Glob
 
-example : validGlob "192.0.2-3.*".toList = true := by decide +kernel
+/-! ## valid_glob -/
 
-theorem smoke : validGlob "192.0.2-3.*".toList = true := by decide +kernel
+/-- `valid_glob(s)` is True exactly on the glob grammar. -/
+theorem valid_glob_iff (s : List Char) : validGlob s = true ↔ GlobGrammar s := by
+  rw [validGlob_iff_parse]
+  unfold GlobGrammar
+  cases globParse s <;> simp
+
+example : GlobGrammar "192.0.2-3.*".toList := by decide +kernel
+example : ¬ GlobGrammar "010.0.0.*".toList := by decide +kernel      -- F10: was accepted (octal)
+example : ¬ GlobGrammar " 1.2.3.4".toList := by decide +kernel       -- F10
+example : ¬ GlobGrammar "1.2.*.4".toList := by decide +kernel
+example : ¬ GlobGrammar "1.2-3.4-5.*".toList := by decide +kernel
+example : ¬ GlobGrammar "1.2.3.5-5".toList := by decide +kernel
+
+/-- every string `valid_glob` rejects is rejected by all conversions with AddrFormatError -/
+theorem invalid_glob_rejected (s : List Char) (h : ¬ GlobGrammar s) :
+    globToIptuple s = .error .addrFormat ∧ globToIprange s = .error .addrFormat ∧
+    globToCidrs s = .error .addrFormat ∧ ipGlob s = .error .addrFormat := by
+  have hv : validGlob s = false := by
+    cases hh : validGlob s with
+    | false => rfl
+    | true => exact absurd ((valid_glob_iff s).1 hh) h
+  have h1 : globToIptuple s = .error .addrFormat := by simp [globToIptuple, hv]
+  refine ⟨h1, by simp [globToIprange, hv], by simp [globToCidrs, h1], by simp [ipGlob, h1]⟩
+
+/-- an address matches a glob: the glob parses to four octets and every octet of the address
+    lies in the corresponding octet's range -/
+def GlobMatches (s : List Char) (a : Nat) : Prop :=
+  ∃ o0 o1 o2 o3, globParse s = some [o0, o1, o2, o3] ∧ a < 2 ^ 32 ∧
+    o0.matches (a / 2 ^ 24 % 256) ∧ o1.matches (a / 2 ^ 16 % 256) ∧ o2.matches (a / 2 ^ 8 % 256) ∧
+    o3.matches (a % 256)
+
+/-- every accepted string converts, `glob_to_iptuple` and `glob_to_iprange` agree, and the
+    resulting interval is exactly the set of addresses whose octets match the glob -/
+theorem glob_denotes (s : List Char) (h : validGlob s = true) :
+    ∃ lo hi, globToIptuple s = .ok (lo, hi) ∧ globToIprange s = .ok ⟨4, lo, hi⟩ ∧
+      lo ≤ hi ∧ hi < 2 ^ 32 ∧ ∀ a, (lo ≤ a ∧ a ≤ hi) ↔ GlobMatches s a := by
+  obtain ⟨os, hp⟩ := (validGlob_iff_parse s).1 h
+  obtain ⟨o0, o1, o2, o3, e, w0, w1, w2, w3, hs, hlo, hhi⟩ := conv_of_parse s os hp
+  subst e
+  have hb := shape_lo_le_hi o0 o1 o2 o3 w0 w1 w2 w3
+  refine ⟨_, _, ?_, ?_, hb.1, hb.2, ?_⟩
+  · simp only [globToIptuple, h, Bool.not_true, Bool.false_eq_true, if_false, hlo, hhi]
+  · have : ¬ (quad o0.lo o1.lo o2.lo o3.lo > quad o0.hi o1.hi o2.hi o3.hi) := Nat.not_lt.2 hb.1
+    simp only [globToIprange, h, Bool.not_true, Bool.false_eq_true, if_false, hlo, hhi, this]
+  · intro a
+    constructor
+    · intro ha
+      have ha32 : a < 2 ^ 32 := by omega
+      exact ⟨o0, o1, o2, o3, hp, ha32, (shape_interval o0 o1 o2 o3 w0 w1 w2 w3 hs a ha32).1 ha⟩
+    · rintro ⟨p0, p1, p2, p3, hp', ha32, hm⟩
+      rw [hp] at hp'
+      simp only [Option.some.injEq, List.cons.injEq, and_true] at hp'
+      obtain ⟨e0, e1, e2, e3⟩ := hp'
+      subst e0 e1 e2 e3
+      exact (shape_interval o0 o1 o2 o3 w0 w1 w2 w3 hs a ha32).2 hm
+
+example : globToIptuple "192.0.2-3.*".toList = .ok (3221225984, 3221226495) := by decide +kernel
+example : GlobMatches "192.0.2-3.*".toList 3221226000 :=
+  ⟨.lit 192, .lit 0, .hyp 2 3, .star, by decide +kernel, by decide,
+    by simp [Oct.matches, Oct.lo, Oct.hi], by simp [Oct.matches, Oct.lo, Oct.hi],
+    by simp [Oct.matches, Oct.lo, Oct.hi], by simp [Oct.matches, Oct.lo, Oct.hi]⟩
 
 end NV.C17
